@@ -200,21 +200,37 @@ func (r polyline) draw(dst backend.Canvas, _ *attributes, _ *SVGImage, _ drawing
 // ellipse or circle
 type ellipse struct {
 	rx, ry, cx, cy Value
+	// rxIsR (resp. ryIsR) is true when the radius comes from the `r` attribute
+	// of a circle, whose percentages refer to the normalized diagonal of the
+	// viewport and not to its width (resp. height)
+	rxIsR, ryIsR bool
+}
+
+// radii resolves the two radii against the viewport
+func (e ellipse) radii(dims drawingDims) (rx, ry Fl) {
+	rx, ry = dims.point(e.rx, e.ry)
+	if e.rxIsR {
+		rx = dims.length(e.rx)
+	}
+	if e.ryIsR {
+		ry = dims.length(e.ry)
+	}
+	return rx, ry
 }
 
 func newEllipse(node *cascadedNode, _ *svgContext) (drawable, error) {
 	r_, rx_, ry_ := node.attrs["r"], node.attrs["rx"], node.attrs["ry"]
-	if rx_ == "" {
-		rx_ = r_
-	}
-	if ry_ == "" {
-		ry_ = r_
-	}
-
 	var (
 		out ellipse
 		err error
 	)
+	if rx_ == "" {
+		rx_, out.rxIsR = r_, true
+	}
+	if ry_ == "" {
+		ry_, out.ryIsR = r_, true
+	}
+
 	out.rx, err = parseValue(rx_)
 	if err != nil {
 		return nil, err
@@ -236,7 +252,7 @@ func newEllipse(node *cascadedNode, _ *svgContext) (drawable, error) {
 }
 
 func (e ellipse) draw(dst backend.Canvas, _ *attributes, _ *SVGImage, dims drawingDims) []vertex {
-	rx, ry := dims.point(e.rx, e.ry)
+	rx, ry := e.radii(dims)
 	if rx == 0 || ry == 0 {
 		return nil
 	}
